@@ -92,6 +92,7 @@ def _path_hang(repo, ob, failure):
     return None
 
 
+@generator("C17.limit.final")
 @generator("C17.loop.")
 def _loop_limit(repo, ob, failure):
     """a loop that needs limit+1 passes must be rejected"""
@@ -107,7 +108,7 @@ def _loop_limit(repo, ob, failure):
         for kind, doc in docs.items():
             r = run_svgdx(repo, doc)
             n = len(_re.findall(r"<rect ", r["out"]))
-            if r["rc"] == 0 and n != need - 0 and n > 0 and n <= limit:
+            if r["rc"] == 0 and n < need:
                 return {"input": doc, "observed": "exit 0 with %d of the %d requested passes rendered (truncated)" % (n, need), "expected": "LoopLimitError"}
             if r["rc"] == 0 and n > limit:
                 return {"input": doc, "observed": "exit 0 with %d rects: %d passes ran although loop-limit=%d" % (n, n, limit), "expected": "LoopLimitError"}
